@@ -209,6 +209,10 @@ def bounded(check, tier, seed):
             for empties in ((), (1,)) if n_ > 1 else ((),):
                 f = FmtStr(*[Chunk("" if i in empties else "xy"[: 1 + i % 2], dict(pool4[c])) for i, c in enumerate(combo)])
                 s.contract_case(A.shared_atts, dict(self=f), key=("shared", combo, empties))
+                # a caller that edits the dict it was handed (atts = f.shared_atts; atts['bold'] = True; fmtstr(x, **atts)) must not
+                # change what the value reports next time
+                if A.edit_reported(f):
+                    s.contract_case(A.shared_atts, dict(self=f), key=("shared", combo, empties, "after the caller edited the reported dict"))
                 s.contract_case(A.copy_with_new_str, dict(self=f, new_str="zz"), key=("cwns", combo, empties))
     s.done()
     from bounded.derived import derived_values
